@@ -81,6 +81,8 @@ def _own_programs():
     P["o:x64_narrowing_cast"] = (lambda x: jnp.sin(x.astype(jnp.float32)), [sds((2, 3), np.float64)], {"enable_double_precision": True})
     P["o:nchw_sym_spatial_broadcast"] = (lambda x: jnp.broadcast_to(jnp.mean(x, axis=(1, 2), keepdims=True), x.shape) + x,
                                          [("B", "H", "W", 3)], {"inputs_as_nchw": [0]})
+    P["o:nchw_sym_spatial_broadcast_only"] = (lambda x: jnp.broadcast_to(jnp.mean(x, axis=(1, 2), keepdims=True), x.shape) * 2.0,
+                                              [("B", "H", "W", 3)], {"inputs_as_nchw": [0]})
     P["o:nchw_out_sym_spatial"] = (lambda x: jnp.tanh(x) + jnp.ones(x.shape[1:], x.dtype), [("B", "H", "W", 3)],
                                    {"inputs_as_nchw": [0], "outputs_as_nchw": [0]})
     P["o:int_bcast"] = (lambda a, b: a[:, None] * b[None, :] + 1, [sds((3,), np.int32), sds((4,), np.int32)])
@@ -101,7 +103,7 @@ def own_names():
     return ["o:add_const11", "o:mul_npconst11", "o:add_npconst111_sin", "o:sym_add_npconst11", "o:scalar_plus_const11",
             "o:max_const11", "o:clip_consts", "o:transpose_add_transpose", "o:transpose_mul_const_relu",
             "o:sym_transpose_chain", "o:sym_broadcast_rows", "o:sym_bias", "o:sym_concat_self", "o:sym_mean_keepdims",
-            "o:reshape_add_const", "o:cast_chain", "o:where_cmp", "o:sym_two_aranges", "o:min_sym_const111", "o:x64_narrowing_cast", "o:nchw_sym_spatial_broadcast", "o:nchw_out_sym_spatial", "o:int_bcast"]
+            "o:reshape_add_const", "o:cast_chain", "o:where_cmp", "o:sym_two_aranges", "o:min_sym_const111", "o:x64_narrowing_cast", "o:nchw_sym_spatial_broadcast", "o:nchw_sym_spatial_broadcast_only", "o:nchw_out_sym_spatial", "o:int_bcast"]
 
 
 # ====================================================================== annotation snapshots (IR level)
